@@ -320,7 +320,17 @@ func frCase(stream string, id int, sp frSpec) hx.Case {
 		if err := xattr.Set(fp, "user.rrrouter", enc); err != nil {
 			return []string{"err:xattr"}
 		}
-		cr, _, err := frCache.Get(ctx, "c", sp.Force, sp.Skip, keys, httptest.NewRecorder(), Logger)
+		gctx := ctx
+		if id%5 == 0 {
+			// the client of THIS lookup has gone away already (its request context is cancelled): the lookup's outcome - and
+			// above all what it does to the lock table, which may belong to another request's fetch - does not depend on
+			// that (seeded change C12-m8: an early return with keys[0] and the context's error, which the handler answers
+			// by releasing that key)
+			c2, cancel := context.WithCancel(ctx)
+			cancel()
+			gctx = c2
+		}
+		cr, _, err := frCache.Get(gctx, "c", sp.Force, sp.Skip, keys, httptest.NewRecorder(), Logger)
 		if cr.Reader != nil {
 			defer cr.Reader.Close()
 		}
